@@ -32,7 +32,7 @@ def main() -> int:
                 digs.append({'error': r.stdout[-300:]})
             os.unlink(path)
             subprocess.run('rm -f /verif/replays/*.json', shell=True)
-        same = all(d == digs[0] for d in digs[1:]) and len(digs[0]) == n
+        same = all(d == digs[0] for d in digs[1:]) and len(digs[0]) >= n and 'error' not in digs[0]
         out[c] = {'tasks': n, 'configs': [f'harness PYTHONHASHSEED={h}, jobs={j}' for h, j in CONFIGS], 'identical': same,
                   'tasks_compared': len(digs[0])}
         print(c, 'identical' if same else 'DIVERGENT', len(digs[0]), 'tasks x', len(CONFIGS), 'configurations')
